@@ -102,7 +102,7 @@ func gen(t *rapid.T) Case {
 		Collide: rapid.IntRange(0, 19).Draw(t, "collide") == 0,
 	}
 	c.NoRebalance = rapid.IntRange(0, 3).Draw(t, "noRebalance") == 0
-	if rapid.IntRange(0, 39).Draw(t, "crowded") == 0 {
+	if rapid.IntRange(0, 119).Draw(t, "crowded") == 0 {
 		c.Crowd = rapid.IntRange(366, 376).Draw(t, "crowd")
 	}
 	if rapid.IntRange(0, 3).Draw(t, "withFamily") == 0 {
